@@ -51,7 +51,7 @@ def test_file(cases, names):
     out = []
     for k, c in enumerate(cases):
         out.append("- name: case%d\n  input: %s\n  expectations:\n    rules:\n%s" % (
-            k, c, "".join("      %s: %s\n" % (n, ["PASS", "FAIL", "SKIP"][(k + q) % 3]) for q, n in enumerate(names)) or "      {}\n"))
+            k, c, "".join("      %s: %s\n" % (n, ["PASS", "FAIL", "SKIP"][(k + q) % 3]) for q, n in enumerate(list(names) + ["no_such_rule_b", "no_such_rule_a", "zz_undefined"]))))
     return "".join(out)
 
 
